@@ -1,5 +1,6 @@
 //! Shared harness code: schemas, worlds, glue to the reference model.
 pub mod casecheck;
+pub mod dynamic;
 pub mod gen;
 pub mod glue;
 pub mod s1;
